@@ -213,6 +213,10 @@ VARIANTS += [
     V("c14-lookup-inverted", "C14", K4, '("000010", 9.8),\n        ("000011", 9.5),', '("000010", 9.4),\n        ("000011", 9.5),', rule="C02.lookup.monotone"),
     V("c14-v2-ac", "C14", K2, '"AC": {"H": D("0.35"), "M": D("0.61"), "L": D("0.71")},', '"AC": {"H": D("0.35"), "M": D("0.71"), "L": D("0.61")},', rule="C14.weights"),
     V("c14-v4-level", "C14", C4, 'UI_levels = {"N": 0.0, "P": 0.1, "A": 0.2}', 'UI_levels = {"N": 0.0, "P": 0.2, "A": 0.1}', rule="C14.levels"),
+    V("c14-v4-depth-shallow", "C14", K4, '("eq1", OrderedDict([(0, 1), (1, 4), (2, 5)])),', '("eq1", OrderedDict([(0, 1), (1, 1), (2, 5)])),', rule="C14.v4.cross"),
+    V("c14-v4-lookup-tweak-N", "C14", K4, '("111110", 5.7),', '("111110", 5.8),', "silent"),
+    V("c14-v4-lookup-tweak", "C02", K4, '("111110", 5.7),', '("111110", 5.8),', rule="C02.lookup"),
+    V("c14-v4-lookup-cliff", "C14", K4, '("111111", 5.7),', '("111111", 0.3),', rule="C14.v4.cross"),
     # ---------------------------------------------------------------- C16
     V("c16-prefix-30-as-31", "C16", INT, 'vector_string = "CVSS:3.0/" + "/".join(vector)', 'vector_string = "CVSS:3.1/" + "/".join(vector)', rule="C16.semantic"),
     V("c16-no-upper", "C16", INT, "input_value = string_input().strip().upper()", "input_value = string_input().strip()", rule="C16.semantic"),
